@@ -440,6 +440,27 @@ class Interp:
                 except _Continue:
                     pass
             return None
+        if k == "range":
+            lo = self.ev(n["from"], env, depth) if n.get("from") is not None else None
+            hi = self.ev(n["to"], env, depth) if n.get("to") is not None else None
+            if n.get("inclusive") and isinstance(hi, int):
+                hi += 1
+            return ("range", lo, hi)
+        if k == "index":
+            b = self.ev(n["base"], env, depth)
+            i = self.ev(n["index"], env, depth)
+            if isinstance(b, dict) and b.get("__arr") is not None:
+                if i in b["__arr"]:
+                    return b["__arr"][i]
+                raise NotPure("read of an unwritten array slot")
+            if isinstance(b, (list, tuple)) and isinstance(i, int) and not isinstance(i, bool) and 0 <= i < len(b):
+                return b[i]
+            if isinstance(b, list) and isinstance(i, tuple) and len(i) == 3 and i[0] == "range":
+                lo = 0 if i[1] is None else i[1]
+                hi = len(b) if i[2] is None else i[2]
+                if isinstance(lo, int) and isinstance(hi, int) and 0 <= lo <= hi <= len(b):
+                    return b[lo:hi]
+            raise NotPure("index expression " + up(n)[:60])
         if k == "closure":
             return ("closure", n, env)
         if k == "ref":
